@@ -831,6 +831,21 @@ class Evolver:
             self.new_structs += [a, b]
             self.edits.append({"edit": "E1-new-structure", "name": a, "properties": [pa["name"]]})
             self.edits.append({"edit": "E1-new-structure", "name": b, "properties": [pb["name"]]})
+            # ... and a *declared* structure whose name is the one a plugin gives a literal's class (<Owner><Property>[Type]),
+            # declared before or after the owner of the literal
+            owner = self.fresh_type_name("VfWidget")
+            for decl in (owner + "SizeType", owner + "Size"):
+                if decl in self.taken_types:
+                    return
+            self.taken_types |= {owner + "SizeType", owner + "Size"}
+            o_ = {"name": owner, "properties": [{"name": "size", "type": shaped(lit("vfAlpha", "uinteger"))}]}
+            d1 = {"name": owner + "SizeType", "properties": [{"name": "vfBeta", "type": {"kind": "base", "name": "string"}}]}
+            d2 = {"name": owner + "Size", "properties": [{"name": "vfGamma", "type": {"kind": "base", "name": "boolean"}}]}
+            seq = [o_, d1, d2] if self.draw(st.booleans()) else [d1, d2, o_]
+            for s_ in seq:
+                self.doc["structures"].append(s_)
+                self.new_structs.append(s_["name"])
+                self.edits.append({"edit": "E1-new-structure", "name": s_["name"], "properties": [p_["name"] for p_ in s_["properties"]]})
             return
         if focus == "method-mentions-request":
             # messages without typeName whose method carries the words the plugins append as suffixes
